@@ -7,10 +7,10 @@ CONSTANTS NB = 2
  SideTxs <- McNoSide
  Palette <- McCore
  MaxLen = 2
- RaceLen = 2
+ RaceLen = 0
  BugBatchAny = FALSE
  BugAddAfterInsert = FALSE
  BugStaleSubIndex = FALSE
- BugBatchAbort = FALSE
-INVARIANTS TypeOK ChainLinear Converges TxReachesPool PeerKept PoolClean PoolOnce PoolValid
+ BugBatchAbort = TRUE
+INVARIANTS PeerKept
 CHECK_DEADLOCK FALSE
